@@ -45,6 +45,7 @@ var faultSources = []faultSource{
 	{"add-type-error", "(1 + true)", "error"},
 	{"neg-type-error", "(0 - \"a\")", "error"},
 	{"if-not-bool", "(if a then 1 else 2)", "error"},
+	{"runaway-self-application", "(f -> f(f))(f -> f(f))", "guard"},
 	{"runaway-recursion-stack-guard", "(r0 -> r0)(0) + (let z = 0; 0) + rec(0)", "guard"},
 }
 
@@ -78,6 +79,16 @@ var faultContexts = []faultContext{
 	{"in-merge-less", "numbers(5).merge(numbers(5), (p, q) -> p < q + %s).size()", false, false, ""},
 	{"in-multiUse-consumer", "numbers(5).multiUse({s: l -> l.map(e -> e + %s).sum(), n: l -> l.size()}).s", false, false, ""},
 	{"in-multiUse-source", "numbers(5).map(e -> e + (if e = 3 then %s else 0)).multiUse({s: l -> l.sum(), n: l -> l.size()}).n", false, false, ""},
+	{"in-multiUse-consumer-lazy-combine-result", "numbers(5).multiUse({s: l -> l.combine((p, q) -> p + %s), n: l -> l.size()}).s.size()", false, false, ""},
+	{"in-multiUse-consumer-lazy-iir-result-in-map", "numbers(5).multiUse({s: l -> {r: l.iir(e -> e, (e, p) -> p + %s)}, n: l -> l.size()}).s.r.size()", false, false, ""},
+	{"in-multiUse-consumer-lazy-number-result-in-try", "try numbers(5).multiUse({s: l -> l.number((n, e) -> e + %s), n: l -> l.size()}).s.size() catch 0 - 99", true, false, ""},
+	{"in-multiUse-consumer-lazy-cross-result", "numbers(3).multiUse({s: l -> l.cross([1, 2], (p, q) -> p + %s), n: l -> l.size()}).s.size()", false, false, ""},
+	{"in-combine-behind-parallel-map", "numbers(40).map(e -> slow(e)).combine((p, q) -> p + (if q = 30 then %s else 0)).sum()", false, true, ""},
+	{"in-compact", "[1, 1, 2, 3].compact((p, q) -> p = q + %s).size()", false, false, ""},
+	{"in-cross", "[1, 2].cross([3, 4], (p, q) -> p + %s).size()", false, false, ""},
+	{"in-fsm", "[1, 2, 3].fsm((s, e) -> goto(s.state + %s)).size()", false, false, ""},
+	{"in-number", "[1, 2, 3].number((n, e) -> n + %s).sum()", false, false, ""},
+	{"in-combineN", "[1, 2, 3, 4].combineN(2, w -> w[0] + %s).sum()", false, false, ""},
 	{"in-order-key", "[3, 1, 2].order(e -> e + %s).first()", false, false, ""},
 	{"in-groupBy", "[3, 1, 2].groupByInt(e -> e + %s).size()", false, false, ""},
 	{"in-map-method", "{x: 1, y: 2}.map((k, v) -> v + %s).x", false, false, ""},
@@ -104,7 +115,11 @@ func runC05(c *Ctx) {
 				for _, fc := range faultContexts {
 					expr := fs.expr
 					prelude := ""
-					if fs.kind == "guard" {
+					if fs.kind == "guard" && fs.name == "runaway-self-application" {
+						if fc.slow && !c.Thorough {
+							continue
+						}
+					} else if fs.kind == "guard" {
 						expr = "rec(0)"
 						prelude = recPrelude
 						if fc.slow && !c.Thorough {
@@ -134,6 +149,20 @@ func runC05(c *Ctx) {
 		}
 		parallelBatches(part, 12, false, gmp, 20*time.Second)
 	}
+	// the host may also call the generated function with a stack it built itself (funcGen.NewStack)
+	var ns []*workerCase
+	for _, src := range []string{recPrelude + "rec(0)", recPrelude + "try rec(0) catch 0 - 99", "(f -> f(f))(f -> f(f))", "func g(n) [n, g(n + 1)][0]; g(0)", recPrelude + "[1, 2].map(e -> rec(e)).sum()"} {
+		id++
+		wc := &workerCase{id: fmt.Sprintf("n%d", id), a: 0, flags: "opt newstack", src: src}
+		mm := [3]string{"runaway-recursion-on-host-built-stack", "top-level", "opt/NewStack"}
+		if strings.Contains(src, "try") {
+			mm[1] = "in-try"
+		}
+		meta[wc.id] = mm
+		ns = append(ns, wc)
+	}
+	parallelBatches(ns, 5, false, 4, 120*time.Second)
+	cases = append(cases, ns...)
 	// recursion through fresh stacks: known to exhaust the Go stack (fatal, not recoverable)
 	deep := []*workerCase{
 		{id: "deep1", a: 0, flags: "opt", src: "func r(n) [n].map(e -> r(e + 1)).first(); r(0)"},
